@@ -240,7 +240,7 @@ class FakeGraph:
         assert req.get_header("Authorization") == "Bearer TOK", req.headers
         drive = "drive" if self.drive_id is None else f"drives/{self.drive_id}"
         if url.startswith(GRAPH + "/next/"):
-            fid, start = url[len(GRAPH + "/next/"):].split("/")
+            fid, start = url[len(GRAPH + "/next/"):].split("?")[0].split("/")
             return self.page(self.by_id[fid], int(start))
         m = re.match(re.escape(GRAPH) + r"/sites/([^/]+)/" + re.escape(drive) + r"/root/children\?\$expand=listItem\(\$expand=fields\)$", url)
         if m and m.group(1) == "SITE":
@@ -269,8 +269,17 @@ class FakeGraph:
         if not chunk and self.omit_empty_value:
             body = {}
         if start + self.page_size < len(items):
-            body["@odata.nextLink"] = f"{GRAPH}/next/{folder.id}/{start + self.page_size}"
+            body["@odata.nextLink"] = f"{GRAPH}/next/{folder.id}/{start + self.page_size}" + self.next_query(folder, start)
         return 200, json.dumps(body).encode()
+
+    # Paging links are opaque to the client: Graph's carry a query string ($skiptoken, often next to $expand / $top; some
+    # services add signatures).  The link styles are mixed per folder and page (no use of the random stream), so a fault on a
+    # later page is reported against a URL with a query string as well as against a plain one.
+    NEXT_QUERIES = ("", "?$skiptoken=UGFnZWQ9VFJVRSZwX0lEPTEy", "?$expand=listItem($expand=fields)&$top=2&$skiptoken=MSZzaWc9",
+                    "?%24skiptoken=p2&sig=Zm9v%2Bbar&tempauth=v1.e30")
+
+    def next_query(self, folder, start):
+        return self.NEXT_QUERIES[(sum(map(ord, str(folder.id))) + start // self.page_size) % len(self.NEXT_QUERIES)]
 
     # -- transport ---------------------------------------------------------------
     def __call__(self, req, timeout=None):
